@@ -1301,14 +1301,6 @@ impl<'de> de::Deserializer<'de> for &mut Deserializer<'de> {
                                         len.checked_mul(7)
                                             .ok_or_else(|| Error::msg("Map length overflow"))?,
                                     )?;
-                                    if key_text_fast {
-                                        self.text_fast_path = true;
-                                    }
-                                    #[cfg(feature = "bignum")]
-                                    if let Some(fast) = value_bignum_fast {
-                                        self.bignum_vec_fast_path = Some(fast);
-                                        self.wire_type = wv.clone();
-                                    }
                                 }
 
                                 let result = visitor.visit_map(Compound::new(
@@ -1318,6 +1310,8 @@ impl<'de> de::Deserializer<'de> for &mut Deserializer<'de> {
                                         expect,
                                         wire,
                                         key_text_fast,
+                                        #[cfg(feature = "bignum")]
+                                        value_bignum_fast,
                                     },
                                 ));
                                 self.text_fast_path = false;
@@ -1472,6 +1466,8 @@ enum Style {
         expect: (Type, Type),
         wire: (Type, Type),
         key_text_fast: bool,
+        #[cfg(feature = "bignum")]
+        value_bignum_fast: Option<BigNumFastPath>,
     },
 }
 
@@ -1750,28 +1746,30 @@ impl<'de> de::MapAccess<'de> for Compound<'_, 'de> {
                 ref expect,
                 ref wire,
                 key_text_fast,
+                #[cfg(feature = "bignum")]
+                value_bignum_fast,
             } => {
                 if *len == 0 {
                     return Ok(None);
                 }
                 *len -= 1;
                 #[cfg(feature = "bignum")]
-                let any_fast = key_text_fast || self.de.bignum_vec_fast_path.is_some();
+                let any_fast = key_text_fast || value_bignum_fast.is_some();
                 #[cfg(not(feature = "bignum"))]
                 let any_fast = key_text_fast;
                 if !any_fast {
                     self.de.add_cost(4)?;
                 }
-                // Always set text_fast_path based on THIS map's key type. The global
-                // text_fast_path may be true from an enclosing map with text keys; using
-                // it directly would skip setting expect_type/wire_type for non-text keys
-                // of this (inner) map, leading to a "Type mismatch" when deserializing
-                // those keys.
+                // The shortcuts are per position: the text shortcut vouches for keys only and
+                // the big-number shortcut for values only. Set both from THIS map's types, the
+                // flags may be stale from an enclosing or a nested compound.
                 self.de.text_fast_path = key_text_fast;
-                if !key_text_fast {
-                    self.de.expect_type = expect.0.clone();
-                    self.de.wire_type = wire.0.clone();
+                #[cfg(feature = "bignum")]
+                {
+                    self.de.bignum_vec_fast_path = None;
                 }
+                self.de.expect_type = expect.0.clone();
+                self.de.wire_type = wire.0.clone();
                 seed.deserialize(&mut *self.de).map(Some)
             }
             _ => Err(Error::msg("expect struct or map")),
@@ -1782,22 +1780,36 @@ impl<'de> de::MapAccess<'de> for Compound<'_, 'de> {
         V: de::DeserializeSeed<'de>,
     {
         match &self.style {
-            Style::Map { expect, wire, .. } => {
-                #[cfg(feature = "bignum")]
-                let any_fast = self.de.text_fast_path || self.de.bignum_vec_fast_path.is_some();
-                #[cfg(not(feature = "bignum"))]
-                let any_fast = self.de.text_fast_path;
-                if !any_fast {
+            #[cfg(feature = "bignum")]
+            Style::Map {
+                expect,
+                wire,
+                key_text_fast,
+                value_bignum_fast,
+                ..
+            } => {
+                if !(*key_text_fast || value_bignum_fast.is_some()) {
                     self.de.add_cost(3)?;
                 }
-                #[cfg(feature = "bignum")]
-                let value_fast = self.de.bignum_vec_fast_path.is_some();
-                #[cfg(not(feature = "bignum"))]
-                let value_fast = false;
-                if !value_fast {
-                    self.de.expect_type = expect.1.clone();
-                    self.de.wire_type = wire.1.clone();
+                self.de.text_fast_path = false;
+                self.de.bignum_vec_fast_path = *value_bignum_fast;
+                self.de.expect_type = expect.1.clone();
+                self.de.wire_type = wire.1.clone();
+                seed.deserialize(&mut *self.de)
+            }
+            #[cfg(not(feature = "bignum"))]
+            Style::Map {
+                expect,
+                wire,
+                key_text_fast,
+                ..
+            } => {
+                if !*key_text_fast {
+                    self.de.add_cost(3)?;
                 }
+                self.de.text_fast_path = false;
+                self.de.expect_type = expect.1.clone();
+                self.de.wire_type = wire.1.clone();
                 seed.deserialize(&mut *self.de)
             }
             _ => {
